@@ -406,6 +406,8 @@ func runC13(c *an.Ctx) {
 				c.Bad("C13.catchvar", handler.Name+"/store", call.Pos(), nil, "the catch variable is declared with Let into a scope the handler did not push")
 			}
 		case name == execList:
+		case g != nil && p.IsNewHelper(g):
+			// looked through: its own calls are in this list
 		case g != nil && rebinders[g]:
 			c.Bad("C13.catchvar", handler.Name+"/rebinds", call.Pos(), nil, "the recover handler of try calls %s, which assigns to the nearest visible variable of that name instead of declaring the catch variable: a variable of the enclosing scopes (or the caller's VarMap) is overwritten with the error and stays changed after the try statement", name)
 		}
